@@ -74,10 +74,12 @@ Proof.
 Qed.
 
 (* ---- the request queue ---- *)
-Lemma keeps_interrupt v : keeps (interrupt v).
+Lemma keeps_interrupt_all v : keeps (interrupt v).
 Proof.
   unfold interrupt, push_l. repeat keeps_more.
 Qed.
+Lemma keeps_interrupt v s a s' : interrupt v s = Ok a s' -> irq s' = irq s.
+Proof. intros H. pose proof (keeps_interrupt_all v s a s' H) as U. unfold untouched in U. congruence. Qed.
 
 (* boundary with a ghost result: which vector was entered *)
 Definition boundary (s : cpu) : outcome (option Z) :=
